@@ -1,9 +1,11 @@
 package rules
 
 import (
+	"fmt"
 	"go/constant"
 	"go/token"
 	"go/types"
+	"sort"
 	"strings"
 
 	"golang.org/x/tools/go/ssa"
@@ -237,6 +239,83 @@ func runC14(c *Ctx) {
 			okSame = okSame && valIsCallTo(conv)(a[0]) && valIsCallTo(conv)(a[1])
 		}
 		c.verdict(okSame, c.nm(fa)+" | block and filter iterators cover the same converted index range", c.P.Pos(fa.Pos()), "same (sourceStartIdx, sourceEndIdx) from targetHeightToImportSourceIndex", "the two import iterators do not cover the same index range derived from the region's heights", c.ats(its)...)
+	})
+	c.rule("C14.V1", "the validators see every header that gets written: the import source iterators cover the inclusive index range [start, end]: after a successfully delivered element the sequence ends (returns without a further delivery) only on the edge where the running index is known to be greater than the end index", func() {
+		for _, spec := range []struct{ parent string }{
+			{"(*chainimport.importSourceHeaderIterator).Iterator"},
+			{"(*chainimport.importSourceHeaderIterator).BatchIterator"},
+		} {
+			parent := c.fn(spec.parent)
+			if parent == nil || len(parent.AnonFuncs) != 1 {
+				c.undecided(spec.parent+" | iterator body", "-", "expected exactly one function literal (the iter.Seq2 body)")
+				continue
+			}
+			f := parent.AnonFuncs[0]
+			// the captured end index: free variable bound to the cell of parameter #2
+			var endFV *ssa.FreeVar
+			ir.Instrs(parent, func(in ssa.Instruction) {
+				mc, ok := in.(*ssa.MakeClosure)
+				if !ok || mc.Fn != ssa.Value(f) {
+					return
+				}
+				for i, b := range mc.Bindings {
+					if al, ok := b.(*ssa.Alloc); ok {
+						for _, st := range ir.StoresTo(al) {
+							if st.Val == ssa.Value(parent.Params[2]) {
+								endFV = f.FreeVars[i]
+							}
+						}
+					}
+				}
+			})
+			if endFV == nil {
+				c.undecided(c.nm(f)+" | end index capture", c.P.Pos(f.Pos()), "the end-index parameter is not captured by the iterator body")
+				continue
+			}
+			isEnd := func(v ssa.Value) bool {
+				u, ok := v.(*ssa.UnOp)
+				return ok && u.X == ssa.Value(endFV)
+			}
+			notEnd := func(v ssa.Value) bool { return !isEnd(v) }
+			g, odd := relGuard("index > endIdx", f, notEnd, isEnd, token.GTR)
+			construct := c.nm(f) + " | the sequence ends only past the inclusive end index"
+			if len(odd) > 0 {
+				c.fail(construct, c.P.Pos(f.Pos()), "the running index is compared with the inclusive end index by "+join(odd)+": the element at the end index can be skipped")
+				continue
+			}
+			// successful deliveries: yield(x, nil) returned true
+			var starts []start
+			isYield := func(in ssa.Instruction) bool {
+				cc := ir.CallOf(in)
+				return cc != nil && !cc.IsInvoke() && cc.Value == ssa.Value(f.Params[0])
+			}
+			for _, y := range find(f, isYield) {
+				a := argsOf(y)
+				if !ir.IsNil(a[1]) {
+					continue
+				}
+				for _, br := range ir.TrueBranches(y.(ssa.Value)) {
+					starts = append(starts, atEdge(c, br.Edge(), "delivered at "+c.at(y)))
+				}
+			}
+			var bad, sites []string
+			cut := g.cut()
+			for _, s := range starts {
+				sites = append(sites, s.desc)
+				ir.Walk(s.b, s.idx, cut, func(in ssa.Instruction) bool {
+					if isYield(in) {
+						return false
+					}
+					if isExit(in) {
+						bad = append(bad, fmt.Sprintf("return at %s reachable from %s without index > endIdx", c.at(in), s.desc))
+						return false
+					}
+					return true
+				})
+			}
+			sort.Strings(bad)
+			c.verdict(len(bad) == 0 && len(starts) >= 1 && len(g.sites) >= 2, construct, c.P.Pos(f.Pos()), fmt.Sprintf("%d delivery point(s); the sequence completes only when index > endIdx", len(starts)), "the iterator can stop before the end index was delivered: "+join(bad)+fmt.Sprintf(" (%d deliveries, %d guard edges)", len(starts), len(g.sites)), sites...)
+		}
 	})
 }
 
